@@ -20,8 +20,9 @@ def model_hist_to_script(hist, n, ids):
         for k in ("r", "from", "to"):
             if k in o:
                 o[k] = LETTER[o[k]]
-        if o["op"] == "create":
+        if o["op"] in ("create", "rename"):
             o["name"] = "m" + str(o.get("name", o.get("e")))
+        if o["op"] == "create":
             o["kind"] = "person"
         if o["op"] == "setdn":
             o["v"] = f"d{o['v']}"
@@ -42,8 +43,8 @@ def mc_runs(pid, cfgs, workers, timeout):
         states += r["distinct"]
         trans += r["generated"]
         for t in r["tuples"]:
-            if t[0] == "CEX":
-                cex.append((cfg, t[1], json.loads(_unescape(t[2]))))
+            if t[0] in ("CEX", "ARM"):
+                cex.append((cfg, ("arm:" if t[0] == "ARM" else "") + t[1], json.loads(_unescape(t[2]))))
     return states, trans, cex
 
 
@@ -62,11 +63,12 @@ def simulate_behaviours(pid, cfg, num, depth, seed):
 
 CFG_SHAPE = {  # cfg -> (replicas, initial ids)
     "KReplMC_chain": (3, [1]), "KReplMC_2r": (2, [1]), "KReplMC_2r_quick": (2, [1]),
-    "KReplMC_2r_skew": (2, [1]), "KReplMC_sim": (3, [1, 2]),
+    "KReplMC_2r_skew": (2, [1]), "KReplMC_sim": (3, [1, 2]), "KReplMC_life": (2, [1]), "KReplMC_life_quick": (2, [1]),
+    "KReplMC_uniq": (2, [1]), "KReplMC_uniq_quick": (2, [1]),
 }
 
 
-def run_property(pid, tier, replay, meta, mode, witnesses):
+def run_property(pid, tier, replay, meta, mode, witnesses, cfgs_quick=None, cfgs_thorough=None):
     R = lib.Result(pid, tier, meta["level"])
     wd = lib.workdir(pid)
     lib.build("repl")
@@ -77,7 +79,8 @@ def run_property(pid, tier, replay, meta, mode, witnesses):
         scripts.append(("replay", [json.loads(l) for l in lib.read_lines(replay)]))
     else:
         # (1) exhaustive exploration of the model; counterexamples become behaviours to replay
-        cfgs = ["KReplMC_chain", "KReplMC_2r_quick"] if tier == "quick" else ["KReplMC_chain", "KReplMC_2r", "KReplMC_2r_skew"]
+        cfgs = (cfgs_quick or ["KReplMC_chain", "KReplMC_2r_quick"]) if tier == "quick" else \
+               (cfgs_thorough or ["KReplMC_chain", "KReplMC_2r", "KReplMC_2r_skew"])
         states, trans, cex = mc_runs(pid, cfgs, 4 if tier == "quick" else 8, 900 if tier == "quick" else 3000)
         seen = set()
         for cfg, inv, hist in cex:
@@ -85,7 +88,7 @@ def run_property(pid, tier, replay, meta, mode, witnesses):
             if key in seen:
                 continue
             seen.add(key)
-            if sum(1 for s in scripts if s[0].startswith("cex:" + cfg + ":" + inv)) >= (3 if tier == "quick" else 25):
+            if sum(1 for s in scripts if s[0].startswith("cex:" + cfg + ":" + inv)) >= (2 if tier == "quick" else 12):
                 continue
             n, ids = CFG_SHAPE[cfg]
             scripts.append((f"cex:{cfg}:{inv}", model_hist_to_script(hist, n, ids)))
@@ -117,7 +120,11 @@ def run_property(pid, tier, replay, meta, mode, witnesses):
         i0 = max(s for s in starts if s <= ln - 1)
         out = []
         for r in recs[i0:ln]:
+            if "m" in r:
+                continue   # exchanges generated by a mesh: the mesh line regenerates them on replay
             out.append(json.dumps({k: v for k, v in r.items() if k not in ("st", "res", "now", "skew")}))
+        if "m" in recs[ln - 1]:
+            out.append(json.dumps({"op": "mesh"}))
         return out
 
     for t in tv["l1fail"]:
@@ -131,7 +138,7 @@ def run_property(pid, tier, replay, meta, mode, witnesses):
     nnotq = sum(1 for t in tv["tuples"] if t[0] == "NOTQUIESCENT")
     drift = 0
     for r in recs:   # L2 expectation exported by the model for exchanges ("expect")
-        if r["op"] == "repl" and "expect" in r:
+        if r["op"] == "repl" and "expect" in r and "sup" in r.get("res", {}):
             ok_obs = r["res"].get("sup") in ("changes", "no_changes")
             if (r["expect"] == "ok") != ok_obs:
                 drift += 1
